@@ -83,3 +83,96 @@ Theorem C01_remove_without_heapify_refuted :
     snd (run_ops (impl_step_noheapify heapq) [] ops) <> snd (run_ops spec_step [] ops).
 Proof. exact remove_without_heapify_refuted. Qed.
 Print Assumptions C01_remove_without_heapify_refuted.
+
+(* ------------------------------------------------------------------------ *)
+(* The tie to the source TEXT.  EventList/Gen_EventList.v is regenerated on
+   every run by translator/py2gallina_eventlist.py from
+   src/pydsol/core/simevent.py and eventlist.py of the tree under test (Python
+   `ast`, fail-closed), and EventList/GenAgree.v proves every generated
+   definition equal to the hand-written model function the theorems above are
+   about: the six rich comparisons and the properties of SimEvent, the id
+   assignment of SimEvent.__init__ (one counter for all classes) and the nine
+   methods of EventListHeap, operation by operation and for whole histories
+   ([lower] turns a method result into the model's (list, observable) pair and
+   is None for a raise; [lib_sane] is what pop_first and __init__ need from the
+   heap library, it follows from heap_contract).  A change of the sources that
+   changes the meaning of a method makes GenAgree.v fail to compile: the check
+   then reports the broken tie. *)
+From PV Require Import EventList.Gen_EventList EventList.GenAgree.
+
+Theorem C01_generated_model_is_the_proved_model :
+  (forall a b, gen_SimEvent___lt__ a b = sev_lt a b /\ gen_SimEvent___le__ a b = sev_le a b /\
+               gen_SimEvent___gt__ a b = sev_gt a b /\ gen_SimEvent___ge__ a b = sev_ge a b /\
+               gen_SimEvent___eq__ a b = sev_eq a b /\ gen_SimEvent___ne__ a b = sev_ne a b) /\
+  (forall e, gen_SimEvent_time e = e_time e /\ gen_SimEvent_priority e = e_prio e /\ gen_SimEvent_id e = e_id e) /\
+  (forall cv cls t p, gen_SimEvent___init__ cv cls t p =
+                      (fst (sev_new (cv_base cv) t p), mkCV (snd (sev_new (cv_base cv) t p)) (cv_sub cv))) /\
+  (forall L, hheapify L [] = [] -> lower out_none (gen_EventListHeap___init__ L) = Some (impl_new, OutNone)) /\
+  (forall L h e, lower out_none (gen_EventListHeap_add L h e) = Some (impl_add L h (sev_key e)) /\
+                 lower OutBool (gen_EventListHeap_remove L h e) = Some (impl_remove L h (sev_key e)) /\
+                 lower OutBool (gen_EventListHeap_contains L h e) = Some (impl_contains_op L h (sev_key e))) /\
+  (forall L h, lower OutKey (gen_EventListHeap_peek_first L h) = Some (impl_peek_first L h) /\
+               lower OutNat (gen_EventListHeap_size L h) = Some (impl_size L h) /\
+               lower OutBool (gen_EventListHeap_is_empty L h) = Some (impl_is_empty L h) /\
+               lower out_none (gen_EventListHeap_clear L h) = Some (impl_clear L h)) /\
+  (forall L, (forall h, hpop L h = None -> h = []) ->
+             forall h, lower OutKey (gen_EventListHeap_pop_first L h) = Some (impl_pop_first L h)) /\
+  (forall L, lib_sane L -> forall h op, gen_step L h op = Some (impl_step L h op)) /\
+  (forall L, lib_sane L -> forall ops, gen_new_run L ops = Some (run_ops (impl_step L) [] ops)) /\
+  lib_sane heapq.
+Proof. exact event_list_generated_agree. Qed.
+Print Assumptions C01_generated_model_is_the_proved_model.
+
+(* C01_refines_sorted_multiset, for the generated constructor and methods: no
+   history raises, and it returns what the sorted multiset returns. *)
+Theorem C01_generated_event_list_refines_sorted_multiset :
+  forall L, heap_contract L -> forall ops,
+    match gen_new_run L ops with
+    | Some (h', os) =>
+        let '(s', os') := run_ops spec_step [] ops in is_heap h' /\ isort h' = s' /\ os = os'
+    | None => False
+    end.
+Proof. exact gen_event_list_refines_sorted_multiset. Qed.
+Print Assumptions C01_generated_event_list_refines_sorted_multiset.
+
+Theorem C01_generated_heapq_event_list_refines_sorted_multiset :
+  forall ops,
+    match gen_new_run heapq ops with
+    | Some (h', os) =>
+        let '(s', os') := run_ops spec_step [] ops in is_heap h' /\ isort h' = s' /\ os = os'
+    | None => False
+    end.
+Proof. exact gen_heapq_event_list_refines_sorted_multiset. Qed.
+Print Assumptions C01_generated_heapq_event_list_refines_sorted_multiset.
+
+(* C01_event_comparisons_strict_total_order and C01_event_lt_agrees_with_list_order,
+   for the generated comparison methods *)
+Theorem C01_generated_event_comparisons_strict_total_order :
+  (forall a, gen_SimEvent___lt__ a a = false) /\
+  (forall a b c, gen_SimEvent___lt__ a b = true -> gen_SimEvent___lt__ b c = true -> gen_SimEvent___lt__ a c = true) /\
+  (forall a b, gen_SimEvent___lt__ a b = true \/ a = b \/ gen_SimEvent___lt__ b a = true) /\
+  (forall a b, gen_SimEvent___eq__ a b = true <-> a = b) /\
+  (forall a b, gen_SimEvent___gt__ a b = gen_SimEvent___lt__ b a) /\
+  (forall a b, gen_SimEvent___le__ a b = negb (gen_SimEvent___lt__ b a)) /\
+  (forall a b, gen_SimEvent___ge__ a b = negb (gen_SimEvent___lt__ a b)) /\
+  (forall a b, gen_SimEvent___ne__ a b = negb (gen_SimEvent___eq__ a b)).
+Proof. exact gen_event_comparisons_strict_total_order. Qed.
+Print Assumptions C01_generated_event_comparisons_strict_total_order.
+
+Theorem C01_generated_event_lt_agrees_with_list_order :
+  forall a b, gen_SimEvent___lt__ a b = key_ltb (sev_key a) (sev_key b).
+Proof. exact gen_event_lt_agrees_with_list_order. Qed.
+Print Assumptions C01_generated_event_lt_agrees_with_list_order.
+
+(* The third tie-breaker is the creation order: whatever the classes of the
+   events constructed (SimEvent or any subclass), the i-th construction gets
+   the i-th id. *)
+Theorem C01_generated_ids_are_creation_stamps :
+  forall specs cv i d, (i < length specs)%nat ->
+    e_id (nth i (gen_create_all cv specs) d) = (cv_base cv + 1 + Z.of_nat i)%Z.
+Proof. exact gen_created_ids_are_creation_stamps. Qed.
+Print Assumptions C01_generated_ids_are_creation_stamps.
+
+(* non-vacuity of the hypotheses used above *)
+Example C01_generated_hypotheses_satisfiable : heap_contract heapq /\ lib_sane heapq.
+Proof. split; [exact heapq_contract | exact heapq_sane]. Qed.
